@@ -65,6 +65,10 @@ pub struct Topo {
     pub seed: u64,
     pub fault: Fault,
     pub family: String,
+    /// logAnnounceInterval of every port in the network (settle bounds stay in seconds, i.e. are
+    /// only more generous for sub-second intervals)
+    #[serde(default)]
+    pub log_announce: i8,
 }
 
 pub fn build_sim(t: &Topo) -> Result<Sim, PanicInfo> {
@@ -78,6 +82,7 @@ pub fn build_sim(t: &Topo) -> Result<Sim, PanicInfo> {
         b.clock_class = ns.class;
         b.slave_only = ns.slave_only;
         b.path_trace = ns.path_trace;
+        b.log_announce = t.log_announce;
         b.seed = t.seed.wrapping_add(i as u64 * 7919);
         b.rec_reply = ReplyMode::EchoDelay;
         let built = b.build()?;
@@ -581,7 +586,8 @@ pub fn gen_topo(rng: &mut StdRng) -> Topo {
             }
         }
     };
-    Topo { nodes, links, loss: 0.0, seed: rng.gen(), fault, family: name.to_string() }
+    let log_announce = [0i8, 0, 0, -1, -2][rng.gen_range(0..5)];
+    Topo { nodes, links, loss: 0.0, seed: rng.gen(), fault, family: name.to_string(), log_announce }
 }
 
 pub fn run(rep: &mut Report, tier: &str, seed: u64, shard: (u32, u32), replay: Option<&str>) {
